@@ -235,7 +235,8 @@ Definition write_subeles (c : child_info) (comp_data : composite) : W xstate uni
             | None => w_raise AttributeError                       (* subele_node is None: .id *)
             | Some sub_id => xw_elem (l "subele") (Some (snd jv)) (id_attr sub_id)
             end)
-         (combine (seq 0 (length comp_data)) comp_data).
+         (let kept := firstn (length (ci_subids c)) comp_data in       (* fix f38f280: `break` at the first j without a node *)
+          combine (seq 0 (length kept)) kept).
 
 (* 66-88: one pass of `for i in range(len(seg_data))` *)
 Definition write_child (gi : seginfo) (d : delims) (s : seg) (i : nat) : W xstate unit :=
@@ -289,7 +290,8 @@ Definition simple_seg (t : target) (d : delims) (s : seg) : W xstate unit :=
       (* 64-66 *)
       dow_ xw_push (l "seg") (id_attr (gi_id gi));
       (* 67-88 *)
-      dow_ w_iter (write_child gi d s) (seq 0 (length (els s)));
+      (* fix f38f280: `break` at the first i for which get_child_node_by_idx(i) is None, i.e. i >= len(children) *)
+      dow_ w_iter (write_child gi d s) (seq 0 (Nat.min (length (els s)) (length (gi_children gi))));
       (* 89-90 *)
       dow_ xw_pop;
       w_mod (fun st => set_last st cur_path)
